@@ -15,6 +15,7 @@ structure OIn where
   dst : IState
   cmap : List (Bytes × Bytes)
   rmap : List (Bytes × Bytes)
+  byOid : Bool := false        -- end-to-end: commit-map ids are real ids = `original-oid` in the re-export
 
 def hexNat : Nat → Bytes → Option Nat
   | acc, [] => some acc
@@ -22,6 +23,10 @@ def hexNat : Nat → Bytes → Option Nat
     if isDigit b then hexNat (acc * 16 + (b.toNat - 48)) r
     else if 0x61 ≤ b && b ≤ 0x66 then hexNat (acc * 16 + (b.toNat - 87)) r
     else none
+
+def enumFrom {α} : Nat → List α → List (Nat × α)
+  | _, [] => []
+  | n, a :: r => (n, a) :: enumFrom (n + 1) r
 
 /-- what the commit-map says about a source commit: `none` = no line; `some none` = dropped;
     `some (some idx)` = kept, with its destination commit -/
@@ -33,6 +38,10 @@ def mapEntry (x : OIn) (c : ICommit) : Option (Option Nat) :=
     | none => none
     | some (_, id) =>
       if id == zeroId then some none
+      else if x.byOid then
+        match (enumFrom 0 x.dst.commits.reverse).find? fun (_, d) => d.origOid == some id with
+        | some (idx, _) => some (some idx)
+        | none => none
       else match (hexNat 0 id).bind x.dst.mark? with
         | some (.commit idx) => some (some idx)
         | _ => none
@@ -103,6 +112,12 @@ def showBytes (b : Bytes) : String := String.ofList (b.map fun c => if 0x20 ≤ 
 def survivingChanges (o : FOpts) (c : ICommit) : Bool :=
   c.changes.any fun l => (handleFileChangeLine o.path l).isSome
 
+/-- end-to-end only: git re-formats an identity with an empty name (`kw  <mail>` vs `kw <mail>`) -/
+def normIdent (line : Bytes) : Bytes :=
+  match idKeyword line with
+  | some kw => kw ++ (line.drop kw.length).dropWhile (· == 0x20)
+  | none => line
+
 /-- per-commit checks: C09 (a line exists), C01/C05/C06 (tree), C02 (parents, drop rule), C04 (metadata) -/
 def checkCommit (x : OIn) (i : Nat) (c : ICommit) : List String :=
   let tag := "commit " ++ (match c.origOid with | some o => showBytes (o.take 10) | none => "#" ++ toString i)
@@ -129,7 +144,8 @@ def checkCommit (x : OIn) (i : Nat) (c : ICommit) : List String :=
         let parErr := if c.parents.all (fun p => (imgP x p).isSome) && wantParents != d.parents then
             ["C02: parents of the image of " ++ tag ++ " are not the de-duplicated images of its parents"] else []
         let rootErr := if c.parents.isEmpty && !d.parents.isEmpty then ["C02: root " ++ tag ++ " gained a parent"] else []
-        let hdrErr := if d.headers != c.headers.map (rewriteIdentityLine x.o) then
+        let nrm (l : List Bytes) := if x.byOid then l.map normIdent else l
+        let hdrErr := if nrm d.headers != nrm (c.headers.map (rewriteIdentityLine x.o)) then
             ["C04: author/committer/encoding lines of " ++ tag ++ " are not the documented rewriting of the originals"] else []
         let msgErr := if x.o.shortHash.isNone && x.o.msgRegex.isNone && d.msg != rewriteMessage x.o c.msg then
             ["C04: message of " ++ tag ++ " is not the documented rewriting of the original"] else []
@@ -146,10 +162,6 @@ def checkCommit (x : OIn) (i : Nat) (c : ICommit) : List String :=
           else if x.o.prune.pruneEmpty == .never then ["C02: empty " ++ tag ++ " dropped against --prune-empty never"]
           else []
         treeErr ++ dropErr
-
-def enumFrom {α} : Nat → List α → List (Nat × α)
-  | _, [] => []
-  | n, a :: r => (n, a) :: enumFrom (n + 1) r
 
 /-- C03: every ref of the source ends, under its new name, on the image of its target -/
 def checkRefs (x : OIn) : List String :=
